@@ -196,13 +196,13 @@ func (scanner *memSortingScanner[T]) Scan(store *ObjectStore[T], query ast.Query
 
 	cursor := store.iteratorF()
 
+	if cursor == nil {
+		return nil, 0, nil
+	}
+
 	rowCursor := &ObjectCursor[T]{
 		store:   store,
 		current: cursor.Current(),
-	}
-
-	if cursor == nil {
-		return nil, 0, nil
 	}
 
 	// Longer term, if we're looking for better performance, we could make a version of llrb which takes a comparator
